@@ -257,8 +257,9 @@ class _Helper:
                 return False
             if isinstance(n, ast.Call):
                 f = n.func
-                if (isinstance(f, ast.Name) and f.id == fn.name) or (isinstance(f, ast.Attribute) and f.attr == fn.name):
-                    return False
+                if (isinstance(f, ast.Name) and f.id == fn.name) or \
+                        (isinstance(f, ast.Attribute) and f.attr == fn.name and isinstance(f.value, ast.Name) and (f.value.id in ('self', 'cls') or f.value.id[:1].isupper())):
+                    return False        # (self-)recursive
         body = list(fn.body)
         if body and isinstance(body[0], ast.Expr) and isinstance(body[0].value, ast.Constant) and isinstance(body[0].value.value, str):
             body = body[1:]
@@ -344,6 +345,9 @@ class Inliner:
         self.log = log if log is not None else []
         self.inlined_sites = {}         # helper key -> count
         self.helpers = {}               # (modname, cls or None, name) -> _Helper
+        self.records = {}               # id(function node) -> {local name: (modname, class name)}: locals holding an instance of a new record class
+        self._cur_vars = {}
+        self._rec_funcs = {}            # id(function node) -> function node
 
     # ---------------------------------------------------------------- discovery
     def discover(self):
@@ -379,6 +383,10 @@ class Inliner:
                     cands = [v for (mn, cn, n), v in self.helpers.items() if mn == mname and cn and n == f.attr]
                     h = cands[0] if len(cands) == 1 else None
                 if h is not None and h.ok:
+                    return h, f.value
+            elif recv in self._cur_vars:
+                h = self.helpers.get((self._cur_vars[recv][0], self._cur_vars[recv][1], f.attr))
+                if h is not None and h.ok and h.kind == 'method':
                     return h, f.value
             else:
                 h = self.helpers.get((mname, recv, f.attr))
@@ -644,6 +652,17 @@ class Inliner:
             h, recv = self._resolve(mname, cls_name, st.exc)
             if h is not None and not h.is_gen:
                 return self._expand(h, st.exc, recv, 'raise')
+        if isinstance(st, ast.Assign) and isinstance(st.value, ast.Call) and len(st.targets) == 1 and isinstance(st.targets[0], ast.Name) \
+                and st.targets[0].id in self._cur_vars and isinstance(st.value.func, ast.Name) and st.value.func.id == self._cur_vars[st.targets[0].id][1]:
+            # `v = Record(args)`: the statements of Record.__init__ with self := v
+            km, kn = self._cur_vars[st.targets[0].id]
+            h = self.helpers.get((km, kn, '__init__'))
+            if h is not None and h.ok:
+                exp = self._expand(h, st.value, ast.copy_location(ast.Name(id=st.targets[0].id, ctx=ast.Load()), st), 'expr')
+                if exp is not None:
+                    st._record_ctor_done = True
+                    return exp
+            return None
         if isinstance(st, ast.Assign) and isinstance(st.value, ast.Call):
             h, recv = self._resolve(mname, cls_name, st.value)
             if h is not None and not h.is_gen:
@@ -756,7 +775,8 @@ class Inliner:
 
     def run(self):
         cands = self.discover()
-        if not cands:
+        self._find_records()
+        if not cands and not self.records:
             return False
         self._unalias_helper_values()
         any_change = False
@@ -765,13 +785,16 @@ class Inliner:
             for mname, m in self.modules.items():
                 for st in m.tree.body:
                     if isinstance(st, ast.FunctionDef):
+                        self._cur_vars = self.records.get(id(st), {})
                         if self._process_body(st.body, mname, None):
                             changed = True
                     elif isinstance(st, ast.ClassDef):
                         for s2 in st.body:
                             if isinstance(s2, ast.FunctionDef):
+                                self._cur_vars = self.records.get(id(s2), {})
                                 if self._process_body(s2.body, mname, st.name):
                                     changed = True
+            self._cur_vars = {}
             if not changed:
                 break
             any_change = True
@@ -779,6 +802,7 @@ class Inliner:
             for k, h in list(self.helpers.items()):
                 self.helpers[k] = _Helper(h.modname, h.qual, h.node, h.cls_name)
         if any_change:
+            self._scalarise_records()
             self._drop_fully_inlined()
             for m in self.modules.values():
                 ast.fix_missing_locations(m.tree)
@@ -829,6 +853,129 @@ class Inliner:
                     for s2 in st.body:
                         if isinstance(s2, ast.FunctionDef):
                             do_func(s2, mname, st.name)
+
+    # ---------------------------------------------------------------- record objects (scalar replacement)
+    def _new_record_classes(self):
+        out = {}
+        for mname, m in self.modules.items():
+            for st in m.tree.body:
+                if not isinstance(st, ast.ClassDef) or st.decorator_list or st.keywords:
+                    continue
+                if any(not (isinstance(b, ast.Name) and b.id == 'object') for b in st.bases):
+                    continue
+                if any(p_.startswith(f'{mname}:{st.name}.') for p_ in self.pinned):
+                    continue
+                ok = True
+                for s2 in st.body:
+                    if isinstance(s2, ast.FunctionDef):
+                        if s2.name.startswith('__') and s2.name != '__init__':
+                            ok = False
+                    elif isinstance(s2, ast.Expr) and isinstance(s2.value, ast.Constant):
+                        pass
+                    elif isinstance(s2, ast.Assign) and all(isinstance(t, ast.Name) and t.id == '__slots__' for t in s2.targets):
+                        pass
+                    elif isinstance(s2, ast.Pass):
+                        pass
+                    else:
+                        ok = False
+                init = next((s2 for s2 in st.body if isinstance(s2, ast.FunctionDef) and s2.name == '__init__'), None)
+                if not ok or init is None:
+                    continue
+                # __init__ only assigns fields
+                fields = set()
+                body = [x for x in init.body if not (isinstance(x, ast.Expr) and isinstance(x.value, ast.Constant))]
+                for x in body:
+                    if isinstance(x, ast.Assign) and all(isinstance(t, ast.Attribute) and isinstance(t.value, ast.Name) and t.value.id == init.args.args[0].arg for t in x.targets):
+                        fields |= {t.attr for t in x.targets}
+                    else:
+                        ok = False
+                if ok and fields:
+                    out[(mname, st.name)] = (st, fields)
+        return out
+
+    def _find_records(self):
+        classes = self._new_record_classes()
+        if not classes:
+            return
+        for (mname, kname), (cnode, fields) in classes.items():
+            init = next(s2 for s2 in cnode.body if isinstance(s2, ast.FunctionDef) and s2.name == '__init__')
+            self.helpers[(mname, kname, '__init__')] = _Helper(mname, f'{kname}.__init__', init, kname)
+        for mname, m in self.modules.items():
+            fns = []
+            for st in m.tree.body:
+                if isinstance(st, ast.FunctionDef):
+                    fns.append(st)
+                elif isinstance(st, ast.ClassDef):
+                    fns += [s2 for s2 in st.body if isinstance(s2, ast.FunctionDef)]
+            for fn in fns:
+                parent = {}
+                for n in ast.walk(fn):
+                    for c in ast.iter_child_nodes(n):
+                        parent[id(c)] = n
+                stores, ctor = {}, {}
+                for n in ast.walk(fn):
+                    if isinstance(n, ast.Name) and isinstance(n.ctx, (ast.Store, ast.Del)):
+                        stores[n.id] = stores.get(n.id, 0) + 1
+                    elif isinstance(n, ast.arg):
+                        stores[n.arg] = stores.get(n.arg, 0) + 2
+                    elif isinstance(n, (ast.Global, ast.Nonlocal)):
+                        for nm in n.names:
+                            stores[nm] = stores.get(nm, 0) + 2
+                for n in ast.walk(fn):
+                    if isinstance(n, ast.Assign) and len(n.targets) == 1 and isinstance(n.targets[0], ast.Name) and isinstance(n.value, ast.Call) \
+                            and isinstance(n.value.func, ast.Name) and (mname, n.value.func.id) in classes and stores.get(n.targets[0].id) == 1:
+                        ctor[n.targets[0].id] = n.value.func.id
+                good = {}
+                for v, kname in ctor.items():
+                    cnode, fields = classes[(mname, kname)]
+                    methods = {s2.name for s2 in cnode.body if isinstance(s2, ast.FunctionDef) and not s2.name.startswith('__')}
+                    ok = True
+                    nested = [d for d in ast.walk(fn) if d is not fn and isinstance(d, DEFS + (ast.Lambda,))]
+                    for n in ast.walk(fn):
+                        if isinstance(n, ast.Name) and n.id == v and isinstance(n.ctx, ast.Load):
+                            par = parent.get(id(n))
+                            if not (isinstance(par, ast.Attribute) and par.value is n):
+                                ok = False
+                                break
+                            gp = parent.get(id(par))
+                            is_call = isinstance(gp, ast.Call) and gp.func is par
+                            if is_call and par.attr not in methods:
+                                ok = False
+                            if not is_call and par.attr not in fields:
+                                ok = False
+                            if any(n in ast.walk(d) for d in nested):
+                                ok = False
+                    if ok:
+                        good[v] = (mname, kname)
+                if good:
+                    self.records[id(fn)] = good
+                    self._rec_funcs[id(fn)] = fn
+
+    def _scalarise_records(self):
+        """after the constructor and the method calls of a record local were expanded, what is left of it are field accesses `v.a`:
+        each becomes the local `v__a` (the record never left the function)"""
+        for fid, vars_ in self.records.items():
+            fn = self._rec_funcs[fid]
+            for v, (mname, kname) in vars_.items():
+                parent = {}
+                for n in ast.walk(fn):
+                    for c in ast.iter_child_nodes(n):
+                        parent[id(c)] = n
+                uses = [n for n in ast.walk(fn) if isinstance(n, ast.Name) and n.id == v]
+                clean = bool(uses) and all(isinstance(parent.get(id(n)), ast.Attribute) and parent[id(n)].value is n and isinstance(n.ctx, ast.Load)
+                                            and not (isinstance(parent.get(id(parent[id(n)])), ast.Call) and parent[id(parent[id(n)])].func is parent[id(n)])
+                                            for n in uses)
+                if not clean:
+                    continue
+
+                class Tr(ast.NodeTransformer):
+                    def visit_Attribute(self, a):
+                        self.generic_visit(a)
+                        if isinstance(a.value, ast.Name) and a.value.id == v:
+                            return ast.copy_location(ast.Name(id=f'{v}__{a.attr}', ctx=a.ctx), a)
+                        return a
+                Tr().visit(fn)
+                self.log.append(f'{mname}:{fn.name}: record local `{v}` ({kname}) replaced by its fields')
 
     def _drop_fully_inlined(self):
         for (mname, cname, name), h in self.helpers.items():
